@@ -68,6 +68,54 @@ theorem C05_size (cfg : Cfg) (hsec : cfg.secStep = id)
   · rw [sendBundle_bad _ _ _ _ hok] at hout
     simp at hout
 
+/-- **C05_head_ranges.** The head-size function of the model is CBOR's (RFC 8949 §3), all five
+    ranges: arguments up to 23 in the initial octet, then 1, 2, 4 or 8 following octets — there is no
+    3-octet argument, so a length of 65536 … 2^32−1 takes 5 octets, not 4. It is what
+    `len(cbor2.dumps(payload_size))` measures and what every encoder lemma (`head_length`) uses. -/
+theorem C05_head_ranges (n : Nat) :
+    headLen n = (if n < 24 then 1 else if n < 256 then 2 else if n < 65536 then 3
+                 else if n < 4294967296 then 5 else 9) ∧
+    (∀ mt, (head mt n).length = headLen n) ∧ (∀ d : Bytes, d.length = n → (encBstr d).length = headLen n + n) := by
+  refine ⟨rfl, fun mt => head_length mt n, ?_⟩
+  intro d hd; rw [encBstr_length, hd]
+
+example : headLen 23 = 1 ∧ headLen 24 = 2 ∧ headLen 255 = 2 ∧ headLen 256 = 3 ∧ headLen 65535 = 3 ∧
+    headLen 65536 = 5 ∧ headLen 16777215 = 5 ∧ headLen 4294967295 = 5 ∧ headLen 4294967296 = 9 := by decide
+
+/-- a byte string of exactly 65536 octets encodes to 65536 + 5 octets (a 4-octet head would be wrong) -/
+example (d : Bytes) (h : d.length = 65536) : (encBstr d).length = 65541 := by
+  rw [encBstr_length, h]; decide
+
+/-- **C05_fragment_size (per fragment, every payload length).** For every fragment the loop builds —
+    any total payload length, any offset, any MTU, any CRC types and block set —: its encoded size is
+    exactly the size of the empty fragment, minus the one-octet empty string, plus the CBOR head of
+    the fragment's OWN payload length, plus that payload; and because that payload is no longer than
+    the total, its head is no larger than `head(total)` which the budget reserves
+    (`headLen_mono`, all five ranges), so the fragment is within the MTU. The reserve is tight: a
+    fragment that fills its budget with a payload whose head equals `head(total)` encodes to exactly
+    the MTU — one octet less reserve and it would be MTU + 1. -/
+theorem C05_fragment_size (m : Nat) (pdata : Bytes) (p : Primary) (bs : List Blk) (o : Nat)
+    (h1 : n1 bs ≤ 1) (hp : ∃ x ∈ bs, x.c.blockNum = 1)
+    (hb : (emptyFrag p bs o pdata.length).size - 1 + headLen pdata.length < m) :
+    let f := fragAt m (headLen pdata.length) pdata p bs o
+    f.size + 1 = (emptyFrag p bs o pdata.length).size + headLen (pdataOf f).length + (pdataOf f).length ∧
+    headLen (pdataOf f).length ≤ headLen pdata.length ∧
+    f.size ≤ m ∧
+    ((pdataOf f).length = budget m (headLen pdata.length) pdata p bs o →
+      headLen (pdataOf f).length = headLen pdata.length → f.size = m) := by
+  intro f
+  have hpd : pdataOf f = (pdata.drop o).take (budget m (headLen pdata.length) pdata p bs o) := by
+    simp [f, pdataOf, fragAt_payload m _ pdata p bs o hp]
+  have heq := fragAt_size_eq m (headLen pdata.length) pdata p bs o h1 hp
+  have hle : (pdataOf f).length ≤ pdata.length := by rw [hpd]; exact (take_drop_length_le pdata o _).2
+  have he := size_eq (emptyFrag p bs o pdata.length)
+  refine ⟨heq, headLen_mono hle, fragAt_size_le m pdata p bs o h1 hb, ?_⟩
+  intro hfull hhead
+  have heq' : f.size + 1 = (emptyFrag p bs o pdata.length).size + headLen (pdataOf f).length + (pdataOf f).length := heq
+  rw [hhead, hfull] at heq'
+  simp only [budget] at heq'
+  omega
+
 /-- model instance used by the examples and counterexamples: zero CRC values, security off -/
 def cfgW : Cfg :=
   { crcFn := fun t _ => zeros (crcWidth t), secStep := id, now := some ⟨1, 0⟩, reroute := true }
